@@ -4,6 +4,7 @@ import (
 	"errors"
 	"fmt"
 	"sync"
+	"sync/atomic"
 	"time"
 
 	"github.com/blinklabs-io/gouroboros/cbor"
@@ -70,6 +71,9 @@ const realHandlerWait = 250 * time.Millisecond
 
 const realStuckWait = 3 * time.Second
 
+// refusalCheckOff: set after the first protocol that kept running after a refusal.
+var refusalCheckOff atomic.Bool
+
 var errAutonomous = errors.New("the object under test made a transition of its own")
 
 // cutMemo remembers (automaton, role, state, symbol) steps whose handler blocked
@@ -114,32 +118,61 @@ func stateByName(sm protocol.StateMap, name string) (protocol.State, bool) {
 // object; otherwise a bare protocol.Protocol is configured with the exported
 // StateMap, the package's NewMsgFromCbor and a no-op handler.
 func newEng(b *binding, role protocol.ProtocolRole, useReal bool, plan rawpeer.Plan) *eng {
-	hub.install()
-	a, c := rawpeer.Pipe(plan, nil)
-	e := &eng{b: b, role: role, real: useReal, errCh: make(chan error, 16)}
-	e.mux = muxer.New(a)
 	if useReal {
-		e.p = b.real(role, protocol.ProtocolOptions{
-			ConnectionId: connection.ConnectionId{LocalAddr: a.LocalAddr(), RemoteAddr: a.RemoteAddr()},
-			Muxer:        e.mux, ErrorChan: e.errCh, Mode: b.mode, Role: role, Version: b.version})
-	} else {
+		return newEngCustom(b, role, plan, true, func(o protocol.ProtocolOptions) (*protocol.Protocol, func()) {
+			return b.real(role, o), nil
+		})
+	}
+	return newEngCustom(b, role, plan, false, func(o protocol.ProtocolOptions) (*protocol.Protocol, func()) {
 		init, ok := stateByName(b.sm, b.initial)
 		if !ok {
 			panic(b.id + ": no state named " + b.initial)
 		}
-		e.p = protocol.New(protocol.ProtocolConfig{
-			Name: b.id, ProtocolId: b.protoID, ErrorChan: e.errCh, Muxer: e.mux, Mode: b.mode, Role: role,
+		return protocol.New(protocol.ProtocolConfig{
+			Name: b.id, ProtocolId: b.protoID, ErrorChan: o.ErrorChan, Muxer: o.Muxer, Mode: b.mode, Role: role,
 			MessageHandlerFunc:  func(protocol.Message) error { return nil },
 			MessageFromCborFunc: b.fromCbor,
 			StateMap:            b.sm,
 			InitialState:        init,
-		})
-	}
+		}), nil
+	})
+}
+
+// newEngCustom: build constructs the protocol instance from the options and may
+// return its own start function (nil: Protocol.Start is called).
+func newEngCustom(b *binding, role protocol.ProtocolRole, plan rawpeer.Plan, real bool,
+	build func(o protocol.ProtocolOptions) (*protocol.Protocol, func())) *eng {
+	hub.install()
+	a, c := rawpeer.Pipe(plan, nil)
+	e := &eng{b: b, role: role, real: real, errCh: make(chan error, 16)}
+	e.mux = muxer.New(a)
+	var start func()
+	e.p, start = build(protocol.ProtocolOptions{
+		ConnectionId: connection.ConnectionId{LocalAddr: a.LocalAddr(), RemoteAddr: a.RemoteAddr()},
+		Muxer:        e.mux, ErrorChan: e.errCh, Mode: b.mode, Role: role, Version: b.version})
 	e.ev = hub.register(e.p)
 	e.peer = rawpeer.NewPeer(c)
-	e.p.Start()
+	if start != nil {
+		start()
+	} else {
+		e.p.Start()
+	}
 	e.mux.Start()
 	return e
+}
+
+// rebind points the engine handle at a new protocol instance on the same
+// connection (a server object that restarted its protocol).
+func (e *eng) rebind(p *protocol.Protocol) {
+	hub.unregister(e.p)
+	e.p = p
+	e.ev = hub.register(p)
+	e.pendingErr = nil
+}
+
+// sendRaw injects raw message bytes from the peer.
+func (e *eng) sendRaw(data []byte) error {
+	return e.peer.SendMsg(e.b.protoID, e.role == protocol.ProtocolRoleClient, data)
 }
 
 func (e *eng) close() {
@@ -285,6 +318,8 @@ type traceResult struct {
 	cut      string       // non-empty: trace ended early for a reason that is not a verdict
 	terminal bool         // engine reported IsDone() in the predicted terminal state
 	stuck    bool         // a step waited the whole bound (do not repeat many of these)
+	// refusalFinal: the trace ended in a refusal and the protocol was seen to shut down
+	refusalFinal bool
 }
 
 // driveTrace runs symbols through a fresh engine in lock step. The sender of each
@@ -370,8 +405,49 @@ func driveTrace(b *binding, impl implAuto, role protocol.ProtocolRole, useReal b
 		}
 		if ev.Err != nil {
 			if e.awaitError() == nil {
+				res.stuck = true
 				return mis(fmt.Sprintf("%s:%s:no-error", cur, sym),
 					fmt.Sprintf("%s: message %s rejected in state %s but no protocol error was reported", b.id, sym, cur))
+			}
+			if !useReal && !refusalCheckOff.Load() {
+				// a refusal is final: the protocol shuts down, so the message that would
+				// have been legal in this state cannot be accepted afterwards
+				select {
+				case <-e.p.DoneChan():
+				case <-time.After(stepWait):
+					res.stuck = true
+					refusalCheckOff.Store(true) // reported once; do not pay the bound on every later trace
+					return mis(fmt.Sprintf("%s:%s:alive-after-refusal", cur, sym),
+						fmt.Sprintf("%s (%s engine): %s was refused in state %s and an error reported, but the protocol is still running %v later (a following legal message would be accepted as if nothing had happened)",
+							b.id, roleName(role), sym, cur, stepWait))
+				}
+				res.refusalFinal = true
+				for _, cand := range b.syms {
+					if _, ok := impl.step(cur, cand.sym); !ok {
+						continue
+					}
+					if local {
+						if err := e.p.SendMessage(cand.mk[0]()); err == nil {
+							return mis(fmt.Sprintf("%s:%s:send-after-refusal", cur, sym),
+								fmt.Sprintf("%s: after %s was refused in %s, SendMessage(%s) was still accepted for sending", b.id, sym, cur, cand.sym))
+						}
+					} else {
+						_ = e.send(ag, cand.mk[0]())
+					}
+					break
+				}
+				for {
+					select {
+					case ev2 := <-e.ev:
+						if ev2.Kind == "transition" && ev2.Err == nil {
+							return mis(fmt.Sprintf("%s:%s:accepted-after-refusal", cur, sym),
+								fmt.Sprintf("%s: after %s was refused in %s the engine accepted message type %d (%s -> %s)", b.id, sym, cur, ev2.MsgType, ev2.From.Name, ev2.To.Name))
+						}
+						continue
+					default:
+					}
+					break
+				}
 			}
 			return res
 		}
